@@ -13,7 +13,7 @@ import warnings
 
 from sim import factory
 from sim.choices import payload
-from sim.kernel import (LivenessViolation, NullOut, Pipe, SimClock, SimDeadlock, SimRaw, SimSocket,
+from sim.kernel import (ClockSeam, LivenessViolation, NullOut, Pipe, SimClock, SimDeadlock, SimRaw, SimSocket,
                         StepBudgetExceeded, World)
 from sim.runner import Outcome
 
@@ -40,12 +40,13 @@ ASSUMPTIONS = [
     "termination is decided by the simulated source: the 9th read/recv after end-of-stream is fatal, plus an item cap "
     "of len(S)//7+2 and a wall-clock backstop for a spin that neither reads nor yields",
     "warnings are not judged",
-    "under an injected I/O error the generator may either raise that same exception object or stop; what it yielded "
+    "under an injected I/O error the generator may either raise that exception (the object itself, an exception chained "
+    "to it, or an OSError of the same class and errno) or stop; what it yielded "
     "before must be a prefix of the reference framing of the bytes delivered so far",
     "cut offsets are exhaustive per enumerated workload; workloads are sampled",
 ]
 EXPECTED_PROBES = ("eof_at_boundary", "eof_in_prefix", "eof_in_header", "eof_in_body", "empty_source", "sock_fin",
-                   "sock_rst", "sock_stall_timeout", "disk_eio", "garbage_bytes", "trim_taken_before_cut", "huge_packet")
+                   "sock_rst", "sock_stall_timeout", "disk_eio", "garbage_bytes", "trim_taken_before_cut", "huge_packet", "non_seekable_file")
 ENUM_LIMIT = 160
 
 _packets = factory.import_library()          # import only
@@ -61,11 +62,24 @@ def setup_process():
     _defn_hdr = factory.load_header_only_definition()
 
 
+def same_io_error(e, injected):
+    """The injected source failure came out of the generator: the object itself, or an exception chained to it
+    (raise ... from err / implicit context), or a re-raised OSError of the same class and errno with more context."""
+    seen = 0
+    x = e
+    while x is not None and seen < 8:
+        if x is injected:
+            return True
+        x = x.__cause__ or x.__context__
+        seen += 1
+    return isinstance(e, OSError) and isinstance(e, type(injected)) and getattr(e, "errno", None) == getattr(injected, "errno", None)
+
+
 def run(ch, render=False):
     out = Outcome()
     w = World(ch, max_steps=100_000)
     pk = _packets
-    src = ch.weighted([(4, "bytes"), (5, "file"), (2, "bytesio"), (6, "socket")], "source")
+    src = ch.weighted([(4, "bytes"), (5, "file"), (2, "bytesio"), (6, "socket"), (2, "pipefile")], "source")
     consumer = ch.weighted([(3, "ccsds_generator"), (1, "packet_generator_headers_only"),
                             (2, "packet_generator_parsed")], "consumer")
     k = ch.weighted([(8, 0), (1, 1), (1, 4), (1, 6), (1, 7), (1, 11), (1, 5), (1, 2), (1, 12), (1, 13), (1, 64), (1, 300)], "k")
@@ -172,6 +186,12 @@ def run(ch, render=False):
         source = delivered
     elif src == "bytesio":
         source = io.BytesIO(delivered)
+    elif src == "pipefile":
+        # a finite, NON-seekable binary file object (pipe, FIFO, sys.stdin.buffer): a real BufferedReader over a
+        # raw device that refuses seek()/tell()
+        raw = SimRaw(w, delivered, seekable=False)
+        source = io.BufferedReader(raw, buffer_size=ch.pick((8192, 1, 7, 16, 4096), "bufsize"))
+        w.probe("non_seekable_file")
     elif src == "file":
         bufsize = ch.pick((8192, 1, 7, 16, 4096), "bufsize")
         fail_at = None
@@ -227,10 +247,13 @@ def run(ch, render=False):
         source = sock
 
     # ---- run the consumer -------------------------------------------------------------------
-    saved_time = pk.time
     saved_stdout = sys.stdout
+    seam = None
     if progress:
-        pk.time = SimClock(w)
+        seam = ClockSeam(pk, SimClock(w))
+        seam.__enter__()
+        if not seam.installed:
+            w.probe("clock_seam_unavailable")
         sys.stdout = NullOut()
     got = []
     err = None
@@ -271,12 +294,13 @@ def run(ch, render=False):
             finally:
                 try:
                     gen.close()
-                except BaseException:
+                except Exception:
                     pass
     finally:
         if trim is not None:
             trim.__exit__(None, None, None)
-        pk.time = saved_time
+        if seam is not None:
+            seam.__exit__(None, None, None)
         sys.stdout = saved_stdout
         if sock is not None:
             sock.close()
@@ -310,7 +334,7 @@ def run(ch, render=False):
         out.fail("wrong_type", f"yielded item is not bytes-like: {e} ({desc})", sig_base + "|wrong_type")
 
     if out.violation is None:
-        if err is not None and err[0] == "exception" and err[1] is injected_exc and injected_exc is not None:
+        if err is not None and err[0] == "exception" and injected_exc is not None and same_io_error(err[1], injected_exc):
             # the injected I/O error itself came out: narrow relaxation -> prefix of reference framing so far
             so_far = delivered[:pipe.delivered] if pipe is not None else delivered
             exp_so_far, _ = factory.reference_frame(so_far, k)
